@@ -58,7 +58,7 @@ def run(res, tier, seed):
     n = 25 if tier == "quick" else 200
     g = gen.G(seed)
     cases = [ops.build(name, g, None, 120 if tier == "quick" else 250) for name in OPS for _ in range(n)]
-    cases += [ops.build(name, g, lambda role: {}, 100) for name in OPS for _ in range(max(3, n // 5))]
+    cases += [ops.build(name, g, lambda role: {"fill": "rand"}, 100) for name in OPS for _ in range(max(3, n // 5))]
     hcases = hist_cases(gen.G(seed + 5), OPS, max(4, n // 4))
     base = runner.run_c(cases)
     pats = ["1", "77", "123456789"] if tier == "quick" else [str(i * 7919 + 1) for i in range(8)]
